@@ -108,12 +108,32 @@ def durations(draw, lo=4, hi=120):
 def seq_cases(draw, n_min=1, n_max=6, basis="rydberg", allow_local=True, allow_dmm=True, allow_slm=True,
               allow_mod=False, max_ops=4, dur_hi=120, dmin=5.0, dmax=12.0, zero_phase_bias=False,
               amp_kinds=("const", "ramp", "blackman", "interp", "comp"),
-              det_kinds=("const", "ramp", "interp", "comp")):
+              det_kinds=("const", "ramp", "interp", "comp"), allow_no_global=False):
     """A full sequence description understood by pbt.build.sequence."""
     reg = draw(registers(n_min, n_max, dmin=dmin, dmax=dmax))
     ids = reg["ids"]
     n = len(ids)
     case = {"reg": reg, "basis": basis, "device": "mock", "local": None, "dmm": None, "slm": None, "ops": []}
+    if allow_no_global and basis == "rydberg" and n >= 2 and draw(st.integers(0, 5)) == 0:
+        # only a local channel is declared: the atoms it never targets are not addressed by any channel at all
+        case["local"] = draw(st.sampled_from(ids))
+        case["no_global"] = True
+        ops = []
+        for _ in range(draw(st.integers(1, max_ops))):
+            c = draw(st.sampled_from(["lp", "lp", "lt", "ld"]))
+            d = draw(durations(4, dur_hi))
+            if c == "lp":
+                ops.append({"t": "pulse", "ch": "l", "amp": draw(amp_waveform(d, amp_kinds)), "det": draw(det_waveform(d, det_kinds)),
+                            "phase": 0.0 if (zero_phase_bias and draw(st.booleans())) else draw(phases())})
+            elif c == "ld":
+                ops.append({"t": "delay", "ch": "l", "d": d})
+            else:
+                ops.append({"t": "target", "q": draw(st.sampled_from(ids))})
+        if not any(o["t"] == "pulse" for o in ops):
+            d = draw(durations(4, dur_hi))
+            ops.append({"t": "pulse", "ch": "l", "amp": draw(amp_waveform(d, amp_kinds)), "det": draw(det_waveform(d, det_kinds)), "phase": draw(phases())})
+        case["ops"] = ops
+        return case
     use_mod = allow_mod and draw(st.booleans())
     if use_mod:
         case["device"] = "mod"
